@@ -55,6 +55,7 @@ COMBS = ('add', 'radd', 'sub', 'concat', 'rstack', 'vec', 'idxadd', 'abs+', '+ab
          'mulz+', '+mulz', 'add3', 'scale+',
          # constraints and atoms OF the combined expression
          'le', 'ge', 'eq', 'abs()', 'norm()', 'sumsqr()', 'exp()', 'abs()<=', 'expcone', 'expcone3', '()*z', '()@z<=')
+COMBS += ('concat-r', 'rstack-r', 'vec-r', 'concat-static-first', 'concat-const-first', 'vec-static-first', 'rstack-static-first')
 COMBS_CORE = ('add', 'radd', 'sub', 'concat', 'le', 'abs()', 'mulz+', 'expcone')
 MASK_SPECS_Q = [('ro', 'z3', 2), ('ro', 'z2w', 2), ('ro', 'z2', 1), ('ro', 'wz2', 2),
                 ('dro1', 'z3', 2), ('dro2', 'z2w', 2), ('dro2', 'z2', 2), ('dro1', 'z2', 1), ('dro3', 'z2', 2)]
@@ -153,6 +154,14 @@ def _gen_all(tier, seed):
                         if aux != 'none':
                             case['aux'] = aux
                         yield case
+                    if len(RAND_LAYOUTS[rl]) >= 2 and fe in ('ro', 'dro2') and (len(seq) <= 2 or th) and st == 'nat':
+                        # the last random variable is declared between adapt calls: at every position not later
+                        # than its first use (position 0 is the ordinary case above)
+                        lastc = set(range(sum(max(z_, 1) for z_ in RAND_LAYOUTS[rl][:-1]), d))
+                        first_use = next((k_ for k_, (r_, c_) in enumerate(seq) if set(c_) & lastc), len(seq))
+                        for g in range(1, first_use + 1):
+                            yield {'fam': 'mask', 'fe': fe, 'rl': rl, 'rows': nrows, 'seq': [[r, c] for r, c in seq],
+                                   'style': st, 'pal': pl, 'grow': g}
                     if fe == 'dro3':
                         for yh in YHIST_VARIANTS:
                             for aux in ('none', 'static'):
@@ -437,6 +446,30 @@ def _mask_palette(nrows, d, pal):
     return base, a
 
 
+def _make_rvars(m, layout, late):
+    """The random variables of a layout as [(rvar, logical component ids)]; with late=True the last one is left out
+    (it is declared later, between adapt calls, by _late_rvar)."""
+    from ..ref.c12c13_build import RAND_LAYOUTS
+    sizes = RAND_LAYOUTS[layout]
+    out, k = [], 0
+    for n_, sz in enumerate(sizes):
+        w_ = max(sz, 1)
+        if not (late and n_ == len(sizes) - 1):
+            out.append(((m.rvar() if sz == 0 else m.rvar(sz)), list(range(k, k + w_))))
+        k += w_
+    return out
+
+
+def _late_rvar(m, layout, rvars):
+    from ..ref.c12c13_build import RAND_LAYOUTS
+    sizes = RAND_LAYOUTS[layout]
+    k = sum(max(sz, 1) for sz in sizes[:-1])
+    sz = sizes[-1]
+    item = ((m.rvar() if sz == 0 else m.rvar(sz)), list(range(k, k + max(sz, 1))))
+    rvars.append(item)
+    return item
+
+
 def _aux_adapt(v, aux, S):
     kind = aux.split('-')[0]
     if kind == 'finer':
@@ -469,17 +502,21 @@ def _run_mask(case):
     if aux != 'none':
         tag += '|extra %s decision declared %s' % (aux.split('-')[0], 'before' if aux.endswith('-before') else 'after')
     mirrors = []
+    grow = case.get('grow')                # the last random variable is declared just before adapt call number `grow`
+    late = grow is not None
+    if late:
+        tag += '|random variable declared between adapt calls'
     if is_ro:
         m = _rs['ro'].Model()
         pre = m.dvar(2)
-        rvars = Bd.make_rvars(m, rl)
+        rvars = _make_rvars(m, rl, late)
         y = m.ldr() if nrows == 1 else m.ldr(nrows)
         fac = [1.0]
         part = P.declared_partition([], 1)
     else:
         m = _rs['dro'].Model(S)
         pre = m.dvar(2)
-        rvars = Bd.make_rvars(m, rl)
+        rvars = _make_rvars(m, rl, late)
         mirrors = [((m.rvar() if rv.shape == () else m.rvar(rv.shape)), comps) for rv, comps in rvars]
         if aux.endswith('-before'):
             auxv = m.dvar()
@@ -504,23 +541,47 @@ def _run_mask(case):
         _aux_adapt(auxv, aux, S)
         ops(2)
     ops(4 + 2 * len(rvars))
-    width = d if is_ro else 2 * d
     done = []
-    for rows, cols in seq:
+
+    def grow_now():
+        rv_new = _late_rvar(m, rl, rvars)
+        if not is_ro:
+            mirrors.append(((m.rvar() if rv_new[0].shape == () else m.rvar(rv_new[0].shape)), rv_new[1]))
+        ops(2)
+    for k, (rows, cols) in enumerate(seq):
+        if late and grow == k:
+            grow_now()
         try:
             ops(Bd.declare_rect(y, rows, cols, rvars, nrows, style))
         except Exception as ex:  # noqa
             return _viol(tag + '|legal declaration raised', 'after %s declaring rows %s x comps %s: %s %s' %
                          (done, rows, cols, Bd.errname(ex), ex), ops.n)
         done.append([rows, cols])
-        want = np.zeros((nrows, width), dtype=int)
-        want[:, :d] = np.array(P.mask_of_rects([(r, c) for r, c in done], nrows, d))
         state = y.depend if is_ro else y.rand_adapt
-        if state is None or np.asarray(state).shape != want.shape or not np.array_equal(np.asarray(state), want):
+        mdone = np.array(P.mask_of_rects([(r, c) for r, c in done], nrows, d))
+        bad_state = state is None or np.asarray(state).ndim != 2 or np.asarray(state).shape[0] != nrows
+        if not bad_state:
+            st_ = np.asarray(state)
+            want = np.zeros(st_.shape, dtype=int)
+            for rv, comps in rvars:
+                for c_ in comps:
+                    col = rv.first + (c_ - comps[0])
+                    if col < want.shape[1]:
+                        want[:, col] = mdone[:, c_]
+                    elif mdone[:, c_].any():
+                        bad_state = True
+            bad_state = bad_state or not np.array_equal(st_, want)
+        if bad_state:
             return _viol(tag + '|dependency state differs from declared mask',
-                         'after %s: state %s declared %s' % (done, None if state is None else np.asarray(state).tolist(),
-                                                             want.tolist()), ops.n)
+                         'after %s: state %s declared (by component) %s' %
+                         (done, None if state is None else np.asarray(state).tolist(), mdone.tolist()), ops.n)
+    if late and grow >= len(seq):
+        grow_now()
     mask = np.array(P.mask_of_rects([(r, c) for r, c in seq], nrows, d))
+    colmap = {}
+    for rv, comps in rvars:
+        for c_ in comps:
+            colmap[c_] = rv.first + (c_ - comps[0])
     B, a = _mask_palette(nrows, d, case['pal'])
     box = Bd.box_constraints(rvars)
 
@@ -586,16 +647,16 @@ def _run_mask(case):
             cs = []
             for i in range(nrows):
                 for j in range(d):
-                    row = ra.getrow((y.first + i) * nrand + j)
+                    row = ra.getrow((y.first + i) * nrand + colmap[j])
                     if mask[i, j]:
                         if row.nnz != 1:
                             return _viol(tag + '|declared cell has no coefficient column', 'row %d comp %d' % (i, j), ops.n)
                         cs.append(int(row.indices[0]))
                     elif row.nnz:
                         return _viol(tag + '|undeclared cell has a coefficient column', 'row %d comp %d' % (i, j), ops.n)
-                for j in range(d, nrand):
-                    if ra.getrow((y.first + i) * nrand + j).nnz:
-                        return _viol(tag + '|undeclared cell has a coefficient column', 'row %d comp %d' % (i, j), ops.n)
+                for j in range(nrand):
+                    if j not in colmap.values() and ra.getrow((y.first + i) * nrand + j).nnz:
+                        return _viol(tag + '|undeclared cell has a coefficient column', 'row %d sup column %d' % (i, j), ops.n)
             ccols.append(tuple(cs))
         for s_ in range(S):
             for t_ in range(S):
@@ -769,6 +830,20 @@ def _combine(comb, x, y, q, z, rso):
         return (x + q) + y
     if comb == 'scale+':
         return 3 * x + (y @ np.array([[1.0, 2.0], [0.5, 1.0]]))
+    if comb == 'concat-r':
+        return rso.concat((y, x))
+    if comb == 'rstack-r':
+        return rso.rstack(y, x)
+    if comb == 'vec-r':
+        return rso.vec(y[1], x[0])
+    if comb == 'concat-static-first':
+        return rso.concat((q, x, y))
+    if comb == 'concat-const-first':
+        return rso.concat((np.array([1.0, 2.0]), y, x))
+    if comb == 'vec-static-first':
+        return rso.vec(q[0], 1.5, x[0], y[1])
+    if comb == 'rstack-static-first':
+        return rso.rstack(q, y, x)
     if comb == 'le':
         return x + y <= 1
     if comb == 'ge':
